@@ -102,8 +102,35 @@ static void check(ByteSource& in, CaseInfo& ci) {
   REQUIRE(g_live->size() == live0, "%zu block(s) still held after every object was cleared (leak)", g_live->size() - live0);
   if (any_forced) ci.nontrivial = true;
 }
+// deterministic case: a request for 2^31 limbs, one more than the int fields _mp_alloc / _mp_size can record.  The only acceptable outcomes are a clean
+// failure ("gmp: overflow in mpz type" and abort, as for an allocation that fails) or a well-formed object; returning normally with a negative
+// allocation is an ill-formed object.  Each call runs in a forked child with a lazily mapped allocator (the 16 GiB are address space, never touched).
+#include <sys/mman.h>
+#include <sys/wait.h>
+#include <unistd.h>
+static void* lazy_alloc(size_t n) { void* p = mmap(nullptr, n ? n : 1, PROT_READ | PROT_WRITE, MAP_PRIVATE | MAP_ANONYMOUS | MAP_NORESERVE, -1, 0); return p == MAP_FAILED ? nullptr : p; }
+static void* lazy_realloc(void* o, size_t on, size_t nn) { void* p = lazy_alloc(nn); if (p && o) { memcpy(p, o, std::min<size_t>(std::min(on, nn), 4096)); munmap(o, on ? on : 1); } return p; }
+static void lazy_free(void* p, size_t n) { munmap(p, n ? n : 1); }
+static void fixed_case(unsigned k, CaseInfo& ci) {
+  if (k != 0) return;
+  ci.desc = "mpz_init2(z, 2^37), mpz_realloc2(z, 2^37), _mpz_realloc(z, 2^31) on lazily mapped memory: abort with 'overflow in mpz type' or a well-formed object";
+  static const char* nm[3] = {"mpz_init2(z, 2^37)", "mpz_realloc2(z, 2^37)", "_mpz_realloc(z, 2^31)"};
+  for (int which = 0; which < 3; which++) {
+    int pfd[2]; REQUIRE(pipe(pfd) == 0, "pipe failed (harness)"); fflush(nullptr); pid_t pid = fork(); REQUIRE(pid >= 0, "fork failed (harness)");
+    if (pid == 0) { close(pfd[0]); dup2(pfd[1], 2); mp_set_memory_functions(lazy_alloc, lazy_realloc, lazy_free);
+      mpz_t z; const mp_bitcnt_t bits = (mp_bitcnt_t)1 << 37;
+      if (which == 0) mpz_init2(z, bits); else { mpz_init(z); if (which == 1) mpz_realloc2(z, bits); else _mpz_realloc(z, (mp_size_t)1 << 31); }
+      if (z->_mp_d == nullptr) _exit(8);                       /* address space refused: no verdict */
+      _exit((long)z->_mp_alloc >= ((long)1 << 31) && z->_mp_size == 0 ? 0 : 7); }
+    close(pfd[1]); std::string err; char b[512]; ssize_t r; while ((r = read(pfd[0], b, sizeof b)) > 0) err.append(b, (size_t)r); close(pfd[0]);
+    int st = 0; waitpid(pid, &st, 0);
+    bool clean_abort = err.find("overflow in mpz type") != std::string::npos && ((WIFSIGNALED(st) && WTERMSIG(st) == SIGABRT) || (WIFEXITED(st) && WEXITSTATUS(st) == 3));
+    bool ok_obj = WIFEXITED(st) && WEXITSTATUS(st) == 0; bool noverdict = WIFEXITED(st) && WEXITSTATUS(st) == 8;
+    REQUIRE(clean_abort || ok_obj || noverdict, "%s returned normally with an ill-formed object (_mp_alloc cannot hold 2^31: it is negative), or died otherwise (wait status 0x%x, stderr \"%.120s\"); acceptable: the overflow abort, or a well-formed object", nm[which], st, err.c_str());
+  }
+}
 namespace eng {
 PropDef g_prop = {"C04",
   "Cases: histories of 1..70 operations over a pool of 6 mpz, 3 mpq, 3 mpf (precisions 64/128/320, changed by mpf_set_prec and mpf_set_prec_raw+restore) and 2 random states. Operations come from the API table (harness/api_table.hpp, ~200 public mpz/mpq/mpf/random/printf/scanf entry points with their documented preconditions; outputs distinct from each other, inputs drawn freely so that outputs alias inputs), plus mpz_realloc2/_mpz_realloc (shrink to the smallest legal size, grow), clear+init/init2/init_set, inits/clears, swap, reseeding/re-initialising/copying random states, parsing functions fed valid, near-valid and arbitrary byte strings. Before each call every mpz/mpq destination of the working pool is (with probability 1/2) shrunk to the smallest legal allocation or replaced by a fresh variable. Invariants after every step: recording allocator (exact old size passed to reallocate/free, no unknown pointers, non-zero sizes), no direct malloc/calloc/realloc from library code (link-time wrap + dladdr of the caller), ASan/UBSan silent, every variable well formed (size within allocation, top limb non-zero, denominator positive, mpf format rules), and every value and every returned number/string identical to a shadow pool on which the same history runs without ever shrinking anything; at the end nothing is live after clearing every object. Non-trivial: a history in which some call had to grow a shrunk destination. Distinct = hash of all decoded choices.",
-  check, setup, {"realloc_forced", "heap_tmp_size_operand", "string_alloc", "explicit_realloc", "clear_init", "mpf_set_prec", "mpf_set_prec_raw", "randstate_copy", "stdio_op", "op_skipped_precondition"}};
+  check, setup, {"realloc_forced", "heap_tmp_size_operand", "string_alloc", "explicit_realloc", "clear_init", "mpf_set_prec", "mpf_set_prec_raw", "randstate_copy", "stdio_op", "op_skipped_precondition"}, fixed_case};
 }
